@@ -396,10 +396,13 @@ LEVEL_TEXT = ("Lean 4 theorems about an executable model of get_baseline_data/ge
               "length: no returned row lies beyond the requested end/start, none earlier/later than max_days from the reference instant, "
               "the nearest-boundary rule under overshoot, the result is a contiguous slice of the input with values unchanged except the "
               "blanked final row, the warning and error conditions. The model is tied to the real functions by a differential run over "
-              "Series and DataFrames with gaps, NaN rows and every option combination.")
+              "Series and DataFrames with gaps, NaN rows and every option combination, and by a translator table: the statements of both "
+              "window functions and their warning builders are re-extracted from the source on every run (Gen/WindowStatements) and "
+              "proved equal to the reviewed statements the model was written from, with no store into the caller's object.")
 LEVEL_NOTE = ("Trusted: Lean kernel + standard axioms; the hand model of pandas label slicing on a monotonic index (takeWhile/dropWhile), "
               "get_indexer(nearest) (ties to the later stamp) and NaT comparisons, validated by T2 only; unsorted or duplicated indexes are "
-              "outside the model; input-unmodified is checked dynamically (snapshot before/after).")
-TECHNIQUE = "Lean 4 proof (list lemmas over an executable model) + differential correspondence"
+              "outside the model; input-unmodified is checked dynamically (snapshot before/after) and syntactically (no store through the "
+              "parameter in the extracted statements; aliasing through pandas views is covered by the dynamic check only).")
+TECHNIQUE = "Lean 4 proof (list lemmas over an executable model) + statement table regenerated from the source + differential correspondence"
 ASSUMPTIONS = ["index sorted ascending (pandas requires a monotonic index for label slices)",
                "a start derived from max_days is not a 'requested limit' for the start-gap warning (the code warns for an explicit start only)"]
